@@ -422,6 +422,8 @@ def eval_u(t):
 
     for ex in t.get("extras", []):
         ex = [list(e) for e in ex]
+        if not ex:
+            continue
         es = edges + ex
         inp = dict(base_in, added_larger_hyperedges=ex)
         acc.case(dict(fn="compute_motifs", order=order, edges=es, isolated=isolated, weighted=weighted, variant="larger"),
@@ -515,6 +517,8 @@ def eval_d(t):
 
     for ex in t.get("extras", []):
         ex = [[list(s), list(tg)] for s, tg in ex]
+        if not ex:
+            continue
         es = edges + ex
         inp = dict(base_in, added_larger_hyperedges=ex)
         acc.case(dict(fn="compute_directed_motifs", order=order, edges=es, isolated=isolated, variant="larger"), nontrivial)
@@ -885,6 +889,12 @@ def _plan(ctx):
     return heavy, light
 
 
+def _input_size(inp):
+    edges = inp.get("edges", [])
+    flat = repr(edges)
+    return (len(edges) + len(inp.get("isolated", [])), len(flat), len(repr(inp)))
+
+
 def run(ctx):
     from hv import common
     common.use_repo()
@@ -897,7 +907,7 @@ def run(ctx):
     ctx.count("oracle_classes_order4", len(_classes(4)))
 
     ctx.rule("undirected: exhaustive over subsets of the possible hyperedges on 4 nodes (order 3: all 2048, x all 24 "
-             "relabellings, x insertion orders, x singleton hyperedges; order 4: all 2048 in thorough, <= 3 hyperedges in "
+             "relabellings (quick: x the 3 adjacent transpositions generating S4), x insertion orders, x singleton hyperedges; order 4: all 2048 in thorough, <= 3 hyperedges in "
              "quick) and on 5 nodes with a cap on the number of hyperedges; then seeded random hypergraphs on 3..7 nodes, "
              "hyperedge sizes 1..6, labels 0..N-1 / scattered / negative / huge, isolated nodes, weighted or not, each "
              "relabelled by every permutation (N <= 5) or 30 random ones, re-inserted in 10 orders, and extended by "
@@ -919,6 +929,7 @@ def run(ctx):
     tasks = heavy + light
     nproc = min(16, multiprocessing.cpu_count())
     mp = multiprocessing.get_context("fork")
+    best, nfail = {}, 0
     with mp.Pool(nproc) as pool:
         for res in pool.imap(_work, tasks, chunksize=1):
             for desc, nontrivial in res["cases"]:
@@ -928,8 +939,15 @@ def run(ctx):
             for name, n in res["counters"].items():
                 ctx.count(name, n)
             for f in res["fails"]:
-                ctx.fail(f["function"], f["clause"], f["input"], expected=f["expected"], observed=f["observed"],
-                         key=f["key"], replay=f["replay"])
+                k = f["key"] or f"{f['function']}:{f['clause']}"
+                best.setdefault(k, []).append((_input_size(f["input"]), nfail, f))
+                best[k] = sorted(best[k], key=lambda x: x[:2])[:3]
+                nfail += 1
+    # report the smallest failing inputs of each kind first (check.py keeps the first violation per key)
+    for k in sorted(best):
+        for _, _, f in best[k]:
+            ctx.fail(f["function"], f["clause"], f["input"], expected=f["expected"], observed=f["observed"],
+                     key=f["key"], replay=f["replay"])
 
     ctx.exhaustive_parts.append("compute_motifs order 3: all 2048 hypergraphs on 4 nodes, each under " +
                                 ("the 3 adjacent transpositions (generators of S4)" if ctx.quick else "all 24 relabellings"))
